@@ -110,8 +110,26 @@ def h_count(c):
     c.prove(sx.And(n >= 12, n < 2 ** 64), "count-fits-64-bits")
 
 
+def h_enumerate(c, r):
+    """the ids enumerated at resolution r (expanding the world cell in one call and level by level) are
+    exactly get_num_cells(r) many, pairwise distinct, and contain every valid cell."""
+    s = shapes.install_symtables()
+    from a5.core import cell_info
+    K = s.cell_to_children(0, r)
+    c.prove(len(K) == cell_info.get_num_cells(r) and len(set(K)) == len(K), "enumerated-ids==get_num_cells(r)-distinct")
+    step = [0]
+    for lvl in range(0, r + 1):
+        step = [k for p in step for k in s.cell_to_children(p, lvl)]
+    c.prove(sorted(step) == sorted(K), "one-call-enumeration==level-by-level-enumeration")
+    d, did = shapes.symid(c, "d", r)
+    c.prove(sx.Or(*[did == k for k in K]), "every-valid-cell-is-enumerated")
+    c.prove(sx.And(*[s.get_resolution(k) == r for k in K]), "enumerated-ids-have-resolution-r")
+
+
 def jobs(tier, seed):
     js = []
+    for r in range(0, 4 if tier == "quick" else 5):
+        js.append(Job("enumerate[r=%d]" % r, "h_enumerate", {"r": r}, weight=3))
     for r in range(0, 31):
         js.append(Job("roundtrip[r=%d]" % r, "h_roundtrip", {"r": r}, weight=2))
         js.append(Job("too-large[r=%d]" % r, "h_too_large", {"r": r}, {"width": 136}))
@@ -184,6 +202,21 @@ except ValueError:
 print("REPRODUCED resolution-above-max-encoded"); sys.exit(1)
 """ % (inp["face"], inp["segment"], inp["r"])
         return {"script": script, "description": "resolution above MAX encoded"}
+    if cx["func"] == "h_enumerate":
+        script = _PRE + """
+from a5.core.serialization import cell_to_children
+from a5.core.cell_info import get_num_cells
+r = %d
+K = cell_to_children(0, r)
+if len(K) != get_num_cells(r) or len(set(K)) != len(K): print("REPRODUCED enumeration-count:r=%%d got=%%d" %% (r, len(K))); sys.exit(1)
+step = [0]
+for lvl in range(0, r + 1): step = [k for p in step for k in cell_to_children(p, lvl)]
+if sorted(step) != sorted(K): print("REPRODUCED enumeration-differs-from-stepwise:r=%%d" %% r); sys.exit(1)
+d = serialize(A5Cell(origin=origins[%d], segment=%d, S=%d, resolution=r))
+if d not in K or any(get_resolution(k) != r for k in K): print("REPRODUCED enumeration-incomplete:r=%%d" %% r); sys.exit(1)
+print("ok")
+""" % (p["r"], inp.get("d.face", 0), inp.get("d.segment", 0) if p["r"] >= 1 else 0, inp.get("d.S", 0) if p["r"] >= 2 else 0)
+        return {"script": script, "description": "enumeration of ids at r=%d" % p["r"]}
     if lab.startswith("get_num_cells") or lab == "count-fits-64-bits":
         script = _PRE + """
 from a5.core.cell_info import get_num_cells
